@@ -19,7 +19,7 @@ EXPLANATION = (
     "untouched everything that the loop condition and the branch conditions on that path read. Writes are assignments, "
     "augmented assignments, deletions, mutator calls and — conservatively — every object handed to or receiving a "
     "call that the effect summary does not prove pure (including calls inside the loop condition). A path that writes "
-    "nothing it reads re-executes identically for ever on any input that takes it once. R01b the three parser passes "
+    "nothing it reads re-executes identically for ever on any input that takes it once. R01c no 'for' loop grows or resizes the collection it iterates over (about 140 loops). R01b the three parser passes "
     "run only inside the handler that converts any exception to a tokenization error (so an internal error is at "
     "least reported, =R15a). Not decided: absence of assertion failures and index errors, polynomial work, loops "
     "whose progress is made by a callee that may or may not mutate (the two known non-termination / assertion "
@@ -194,8 +194,45 @@ def r01(ctx: Context) -> None:
         raise AnalysisError(f"only {loops} while loops found (203 confirmed)")
 
 
+def r01c(ctx: Context) -> None:
+    """A for loop must not grow (or resize) the collection it iterates over."""
+    prog = ctx.prog
+    rule = ctx.rule("R01c", "no for loop grows or resizes the collection it is iterating over", 120)
+    loops = 0
+    for func in prog.iter_functions():
+        for node in walk_local(func.node):
+            if not isinstance(node, ast.For):
+                continue
+            loops += 1
+            iterated = norm(node.iter)
+            base = node.iter
+            if isinstance(base, ast.Call) and (dotted(base.func) or "") in ("enumerate", "reversed", "iter") and base.args:
+                iterated = norm(base.args[0])
+            if isinstance(base, ast.Call) and isinstance(base.func, ast.Attribute) and base.func.attr in ("items", "keys", "values"):
+                iterated = norm(base.func.value)
+            offender = None
+            for sub in [s for stmt in node.body for s in ast.walk(stmt)]:
+                if isinstance(sub, ast.Call) and isinstance(sub.func, ast.Attribute) and norm(sub.func.value) == iterated:
+                    if sub.func.attr in ("append", "extend", "insert", "add", "update", "setdefault"):
+                        offender = sub
+                    if sub.func.attr in ("pop", "remove", "clear", "popitem", "discard") and not isinstance(node.iter, ast.Name):
+                        offender = sub
+                if isinstance(sub, ast.Assign) and any(isinstance(t, ast.Subscript) and norm(t.value) == iterated for t in sub.targets):
+                    typ = prog.infer(func, node.iter if not isinstance(base, ast.Call) else base)
+                    if isinstance(base, ast.Call) and isinstance(base.func, ast.Attribute) and base.func.attr in ("items", "keys", "values"):
+                        offender = sub  # new keys while iterating a dict view
+            key = f"{func.short}: for {norm(node.target)} in {norm(node.iter)[:50]}"
+            if offender is not None:
+                rule.fail(key, where(func, offender), f"the loop body changes the size of '{iterated}' ('{norm(offender)[:60]}') while iterating over it: a list grows for ever, a dict or set raises 'changed size during iteration'")
+            else:
+                rule.ok(key, "collection not resized in the body")
+    if loops < 120:
+        raise AnalysisError(f"only {loops} for loops found")
+
+
 def run(ctx: Context) -> None:
     r01(ctx)
+    r01c(ctx)
     c15.r15a(ctx)
     ctx.rules[-1].rule_id = "R01b"
     for finding in ctx.rules[-1].findings:
